@@ -60,7 +60,7 @@ static EvalResult eval_child(Scenario &sc, const Plan &p, bool verbose = false) 
         signal(SIGALRM, on_alarm); alarm(3);
         Cov cov; Verdict v = sc.run(p, cov, verbose);
         std::string out = std::string(v.ok ? "1" : "0") + "\n" + v.sig + "\n" + std::to_string(v.op) + "\n" + std::to_string(v.loghash) + "\n" + v.detail + "\n";
-        (void)!write(fd[1], out.data(), out.size()); _exit(0);
+        (void)!write(fd[1], out.data(), out.size()); fflush(stdout); _exit(0);
     }
     close(fd[1]); std::string out; char buf[4096]; ssize_t n; while ((n = read(fd[0], buf, sizeof buf)) > 0) out.append(buf, (size_t)n); close(fd[0]);
     int st = 0; waitpid(pid, &st, 0);
